@@ -9,9 +9,9 @@ from vmon.work import arb
 
 ID = "C09"
 RULE = ("cases = same arbiter workload as C08; every free-bus transition is compared with the round-robin successor "
-        "function; continuous requesters are checked for at most N-1 foreign grants; for N <= 4 the recorded "
+        "function; continuous requesters are checked for at most N-1 foreign grants; for N <= 5 the recorded "
         "(owner, request mask, busy) -> owner' log is searched offline for a cycle on which an initiator requests "
-        "throughout, the bus is released at least once and it is never granted; distinct = distinct configuration+"
+        "throughout, the bus is released at least once and it is never granted (N <= 5 recorded); distinct = distinct configuration+"
         "stimulus; non-trivial = run with >= 2 initiators and >= 5 ownership changes")
 ASSUMPTIONS = ["Amaranth simulator is faithful", "'no starvation' decided only in its bounded restatement",
                "offline search is conclusive only for N whose transition log is complete (stated in the evidence)"]
